@@ -110,6 +110,14 @@ def apply_edits(las, edits):
             continue
         if k == "index_shift":
             las.curves[0].data = las.curves[0].data + float(e[1])
+        elif k == "index_inplace":
+            # edit the first samples of the index array IN PLACE, leaving the last sample (and so STOP) alone
+            d = las.curves[0].data
+            if n < 2:
+                continue
+            d[0] = d[0] - float(e[1])
+            if n > 2:
+                d[1] = d[1] + float(e[1]) / 2
         elif k == "index_reverse":
             for c in las.curves:
                 c.data = c.data[::-1].copy()
@@ -159,6 +167,7 @@ def oracle(case):
         out.rejected = True
         out.cls("text-index")
         return out
+    idx_loaded = np.array(las.curves[0].data, dtype=float, copy=True) if len(las.curves) else np.array([])
     kinds = apply_edits(las, case.get("edits", []))
     out.cls(*["edit-" + k for k in sorted(kinds)])
     try:
@@ -174,15 +183,15 @@ def oracle(case):
     out.cls("index-" + shape)
     out.nontrivial = bool(kinds) or shape not in ("increasing",)
     # must STRT/STOP/STEP be refreshed?  (created, or edited, or the file's STOP disagrees with its data)
-    index_edited = (not was_read) or bool(kinds & {"index_shift", "index_reverse", "index_truncate", "index_irregular"})
+    index_edited = (not was_read) or bool(kinds & {"index_shift", "index_reverse", "index_truncate", "index_irregular", "index_inplace"})
     stop_disagrees = False
     if was_read and len(idx):
         try:
-            stop_disagrees = float(las.well["STOP"].value) != float(las.index_initial[-1]) if las.index_initial is not None else True
+            stop_disagrees = float(las.well["STOP"].value) != float(idx_loaded[-1])
         except Exception:  # noqa
             stop_disagrees = True
-    if index_edited and was_read and las.index_initial is not None and np.array_equal(las.index_initial, idx):
-        index_edited = False  # an edit that changed nothing (e.g. shift by 0)
+    if index_edited and was_read and np.array_equal(idx_loaded, idx):
+        index_edited = False  # an edit that changed nothing (compared with my own copy of the index as loaded)
     before0 = snapshot(las)
     vers_before = [x for x in before0["sections"].get("Version", []) if x["orig"].upper() == "VERS"]
     texts = []
@@ -251,6 +260,8 @@ def oracle(case):
 EDIT = st.one_of(
     st.tuples(st.just("index_shift"), st.sampled_from([0.5, -3.0, 100.0, 0.000001])),
     st.tuples(st.just("index_reverse")),
+    st.tuples(st.just("index_inplace"), st.sampled_from([0.25, 1.0, -0.5])),
+    st.tuples(st.just("index_inplace"), st.sampled_from([0.25, 1.0, -0.5])),
     st.tuples(st.just("index_truncate"), st.integers(1, 3)),
     st.tuples(st.just("index_irregular"), st.sampled_from([0.25, -0.1, 7.0])),
     st.tuples(st.just("curve_set"), st.integers(0, 5), st.integers(0, 9), st.sampled_from([1.5, -42.0, 0.0])),
@@ -260,7 +271,7 @@ EDIT = st.one_of(
 
 def corpus_cases(tier):
     optsets = [{}, {"version": 1.2, "wrap": True}, {"version": 2, "wrap": False, "fmt": "%.3f"}]
-    editsets = [[], [["index_shift", 0.5]], [["index_reverse"]], [["curve_set", 0, 1, 1.5], ["header_set", "W", 0, "edited"]],
+    editsets = [[], [["index_shift", 0.5]], [["index_reverse"]], [["index_inplace", 0.25]], [["curve_set", 0, 1, 1.5], ["header_set", "W", 0, "edited"]],
                 [["index_truncate", 2]]]
     for f in inputs.corpus_files():
         for o in optsets:
@@ -317,6 +328,6 @@ def read_cases(draw):
 def parts(tier):
     return [
         Enum("example-corpus", corpus_cases),
-        Hyp("built-from-scratch", built_cases, quick=1200, thorough=40000),
-        Hyp("read-then-edited", read_cases, quick=1200, thorough=40000),
+        Hyp("built-from-scratch", built_cases, quick=3000, thorough=40000),
+        Hyp("read-then-edited", read_cases, quick=3000, thorough=40000),
     ]
